@@ -178,6 +178,29 @@ pub async fn add_liars(c: &Cluster, rng: &mut impl Rng, invented: &mut Vec<Strin
 }
 
 
+/// Everything node `x` knows: the peers it has an open connection to plus the members of its routing table (a peer whose
+/// connection was closed stays known only if the table holds it). Table members are DHT keys; they are mapped back to the
+/// names of the cluster. Used as the ground-truth member set of local answers and find-node replies.
+pub async fn known_of(c: &Cluster, x: &str) -> Vec<String> {
+    let mut out: Vec<String> = c.hub.connected(x);
+    if let Some(r) = c.reals.iter().find(|r| r.id == x) {
+        let core = r.mgr.verif_core();
+        let members: Vec<[u8; 32]> = {
+            let g = core.read().await;
+            let zero = saorsa_core::dht::core_engine::DhtKey::from_bytes([0u8; 32]);
+            g.find_nodes(&zero, usize::MAX).await.map(|v| v.iter().map(|n| *n.id.as_bytes()).collect()).unwrap_or_default()
+        };
+        let closed: Vec<String> = c.hub.neighbours(x);
+        for p in closed {
+            if !out.contains(&p) && members.contains(&saorsa_core::dht::derive_dht_key_from_peer_id(&p)) {
+                out.push(p);
+            }
+        }
+    }
+    out.sort();
+    out
+}
+
 /// One lookup on a cluster, logged as the events the acceptor judges (Local, Lookup, Reply*). `extra` is merged into the
 /// Lookup event (fields the acceptor does not read, e.g. the model's answer for spec -> impl replays).
 pub async fn one_lookup(c: &Cluster, names: &mut Names, origin: &net::RealNode, key: [u8; 32], count: usize, invented: &[String],
@@ -185,10 +208,11 @@ pub async fn one_lookup(c: &Cluster, names: &mut Names, origin: &net::RealNode, 
     let initial = origin.mgr.find_closest_nodes_local(&key, 10_000).await;
     // peers whose query attempt cannot reach the hub: no connection yet and dialling them fails
     // (nobody listens at the address a liar gave, or the peer is dead)
-    let neigh0 = c.hub.neighbours(&origin.id);
+    let known0 = known_of(c, &origin.id).await;
     let mut unreachable: Vec<String> = invented.to_vec();
+    let open0 = c.hub.connected(&origin.id);
     for s in &c.silent {
-        if !neigh0.contains(s) {
+        if !open0.contains(s) {
             unreachable.push(s.clone());
         }
     }
@@ -224,12 +248,12 @@ pub async fn one_lookup(c: &Cluster, names: &mut Names, origin: &net::RealNode, 
             Some(DhtNetworkResult::GetNotFound { .. }) => vec![],
             _ => continue,
         };
-        let known: Vec<usize> = c.hub.neighbours(&f.from).iter().map(|x| names.id(x)).collect();
+        let known: Vec<usize> = known_of(c, &f.from).await.iter().map(|x| names.id(x)).collect();
         replies.push(json!({"x":names.id(&f.from),"r":names.id(&f.to),"known":known,"nodes":nodes}));
     }
     let rank = names.ranks(&key);
     // what the origin is connected to (hub view): its local knowledge must be exactly these peers
-    let neigh_ids: Vec<usize> = neigh0.iter().map(|x| names.id(x)).collect();
+    let neigh_ids: Vec<usize> = known0.iter().map(|x| names.id(x)).collect();
     let rank = if rank.len() < names.list.len() { names.ranks(&key) } else { rank };
     events.push(json!({"ev":"Local","self":me,"neigh":neigh_ids,"initial":initial_ids,"rank":rank}));
     let mut lk = json!({"ev":"Lookup","self":me,"k":count,"rank":rank,"initial":initial_ids,"reqs":reqs,"result":result_ids,
@@ -283,6 +307,25 @@ pub fn drive(a: &Args) -> i32 {
             }
             let mut invented = Vec::new();
             add_liars(&c, &mut rng, &mut invented).await;
+            if seg % 3 == 2 {
+                // some connections are closed again: each peer stays in the other's routing table and must still be
+                // named under its one (transport) identifier and be reachable again through its recorded address
+                for _ in 0..rng.gen_range(1..=4) {
+                    let a = &c.reals[rng.gen_range(0..c.reals.len())];
+                    let neigh: Vec<String> = c.hub.neighbours(&a.id).into_iter()
+                        .filter(|p| c.reals.iter().any(|r| &r.id == p) && !c.silent.contains(p)).collect();
+                    if let Some(b) = neigh.choose(&mut rng) {
+                        // the connection is closed: both transports drop the peer (the remote side as it would on the
+                        // connection-closed notification), the hub refuses frames until one of them dials again
+                        c.hub.unlink(&a.id, b);
+                        let _ = a.transport.disconnect_peer(b).await;
+                        if let Some(rb) = c.reals.iter().find(|r| &r.id == b) {
+                            let _ = rb.transport.disconnect_peer(&a.id).await;
+                        }
+                        net::settle().await;
+                    }
+                }
+            }
             c.apply_silence();
             let mut names = Names::new();
             for r in &c.reals {
